@@ -345,6 +345,36 @@ Proof.
   split; [eapply stor_ext_trans; eauto|congruence].
 Qed.
 
+Lemma dense_ents_ext : forall (rec : heap -> list nat -> option (heap * nat)) cl L ms,
+  (forall h ns h' n, rec h ns = Some (h', n) -> stor_ext h h') ->
+  forall ks h h' es, dense_ents rec cl h L ms ks = Some (h', es) -> stor_ext h h'.
+Proof.
+  intros rec cl L ms Hrec. induction ks as [|k t IH]; intros h h' es H; cbn [dense_ents] in H.
+  - inversion H; subst. apply stor_ext_refl.
+  - destruct (all_some (map (member_leaf h [k]) ms)) as [vs|].
+    + destruct (lazy_stack_leaf h L vs) as [h1 v] eqn:E.
+      pose proof (lazy_stack_leaf_ext h L vs) as [S1 _]. rewrite E in S1. cbn [fst] in S1.
+      destruct cl.
+      * destruct (fresh_like h1 v (read h1 v)) as [h2 v2] eqn:E2.
+        pose proof (fresh_like_ext h1 v (read h1 v)) as [S2 _]. rewrite E2 in S2. cbn [fst] in S2.
+        destruct (dense_ents rec true h2 L ms t) as [[h3 es3]|] eqn:E3; [|discriminate]. inversion H; subst.
+        eapply stor_ext_trans; [exact S1|]. eapply stor_ext_trans; [exact S2|]. eapply IH; eauto.
+      * destruct (dense_ents rec false h1 L ms t) as [[h3 es3]|] eqn:E3; [|discriminate]. inversion H; subst.
+        eapply stor_ext_trans; [exact S1|]. eapply IH; eauto.
+    + destruct (all_some (map (member_node h [k]) ms)) as [ns|]; [|discriminate].
+      destruct (rec h ns) as [[h1 n]|] eqn:E; [|discriminate].
+      destruct (dense_ents rec cl h1 L ms t) as [[h2 es2]|] eqn:E2; [|discriminate]. inversion H; subst.
+      eapply stor_ext_trans; [eapply Hrec; eauto|eapply IH; eauto].
+Qed.
+
+Lemma lazy_dense_ext : forall fuel cl h L ms h' n, lazy_dense fuel cl h L ms = Some (h', n) -> stor_ext h h'.
+Proof.
+  induction fuel as [|f IH]; intros cl h L ms h' n H; [discriminate|]. cbn [lazy_dense] in H.
+  destruct (dense_ents (fun h'0 ns => lazy_dense f cl h'0 L ns) cl h L ms (lazy_keys h ms)) as [[h1 es]|] eqn:E; [|discriminate].
+  inversion H; subst. eapply dense_ents_ext in E; [|intros; eapply IH; eauto].
+  destruct E as [e He]. exists e. cbn. exact He.
+Qed.
+
 Ltac xpure_tree lem :=
   match goal with
   | H : map_tree _ _ _ _ _ _ _ _ = Some (_, _) |- _ => eapply map_tree_ext in H; [apply H|apply lem]
@@ -412,6 +442,11 @@ Proof.
   - (* XShare *)
     destruct (nth_error (regs (xb s)) r) as [d|]; [|apply stor_ext_refl].
     pose proof (step_pure (xb s) (ILock r true) eq_refl) as P. destruct (step (xb s) (ILock r true)) as [b' o]. exact P.
+  - (* XLazyDense *)
+    destruct (nth_error (xlazy s) l) as [L|]; [|apply stor_ext_refl].
+    destruct (lazy_dense (fuel_of (hp (xb s))) cl (hp (xb s)) L (lmem L)) as [[h1 m]|] eqn:E; [|apply stor_ext_refl].
+    cbn. eapply lazy_dense_ext; eauto.
+  - (* XLazyNarrow *) repeat destr_match; cbn; apply stor_ext_refl.
 Qed.
 
 (* ------------------------------------------------------------------ histories *)
@@ -528,6 +563,17 @@ Proof.
   pose proof (write_c_only _ _ _ _ _ _ Hw) as O. rewrite (O sid).
   - apply stor_ext_get; assumption.
   - intros [X|[]]. lia.
+Qed.
+
+(* ... in particular for a stack of ONE member (built so, or left with one member by lazy[k:k+1] / split / chunk: XLazyNarrow) *)
+Corollary lazy_get_fresh_one_member : forall s li p m nb sel v,
+  xlz s li = Some (mkLazy [m] nb [sel]) -> member_leaf (hp (xb s)) p m = Some v ->
+  exists h1 v', xstep s (XLazyGet li p) = (xpush s h1 (RLeaf v'), Done)
+    /\ fresh_view (hp (xb s)) v' /\ stor_ext (hp (xb s)) h1 /\ hnodes h1 = hnodes (hp (xb s))
+    /\ forall chk vals h2 o, write_c chk h1 v' vals = (h2, o) ->
+         forall sid, sid < List.length (hstor (hp (xb s))) -> get_stor h2 sid = get_stor (hp (xb s)) sid.
+Proof.
+  intros s li p m nb sel v HL Hv. eapply lazy_get_fresh; [exact HL|]. cbn. rewrite Hv. reflexivity.
 Qed.
 
 (* in-place arithmetic / zero_ through the stack run on the members' own entries: nothing allocated, nothing rebound, and only
@@ -654,3 +700,7 @@ Definition exw_state : xst :=
   xrun empty_xst [XB (INewT [1; 2; 3; 4; 5; 6]%Z [0; 2; 4]); XB (INewT [7; 8; 9]%Z [0; 1; 2]); XB (INewTD [("c"%string, 1)]);
                   XB (INewTD [("a"%string, 0); ("n"%string, 2)]); XMkSub 3 (mkWin 3 [1; 2] true);
                   XB (INewT [50; 60]%Z [0; 1])].
+
+(* a stack of one member {a: [1,2,3]} with the stack dim in front *)
+Definition one_member_state : xst :=
+  xrun empty_xst [XB (INewT [1; 2; 3]%Z [0; 1; 2]); XB (INewTD [("a"%string, 0)]); XMkLazy [1] 3 [[0; 1; 2]]].
